@@ -758,7 +758,15 @@ def check_model_index_space(ctx, rep):
         for y in adds:
             c = canon(callee_info(y)["args"][0])
             sizes = [t for t in subterms(c) if isinstance(t, tuple) and t and t[0] == "call" and t[1] == "size"]
-            if sizes and all(t[2:] == (p0,) for t in sizes):
+            backs = [t for t in subterms(c) if isinstance(t, tuple) and t and t[0] == "call" and t[1] == "back"]
+            exact = False
+            if len(set(sizes)) == 1 and len(set(backs)) == 1:
+                from .c05 import _poly_named
+                names = {}
+                pc_ = _poly_named(c, names)
+                want = _poly_named(("bin", "+", backs[0], sizes[0]), names)
+                exact = pc_ is not None and pc_ == want
+            if sizes and all(t[2:] == (p0,) for t in sizes) and exact:
                 rep.holds("MX", y, f, "IncrNetModelBuilder::addNet adds %s pins" % pretty(sizes[0]), "all the pins it is given")
             else:
                 rep.violation("MX", y, f, "IncrNetModelBuilder::addNet adds %s" % pretty(c)[:50], "not the number of pins it was given: pins are dropped (a cell may carry several pins "
